@@ -9,14 +9,32 @@ LEVEL = "model_checking"
 TLC_WORKERS = 4
 
 
+BASE = {"x": 1, "n": "n1", "s": "both", "a": "", "ap": False, "g": ["g1"], "mx": False, "p": ""}
+FIELDS = ["n", "s", "a", "ap", "g", "mx", "p"]
+AUTHORISED = ("absent", "ownBare", "ownFull", "ownOther")      # what the design (and the code) applies
+
+
+def _item(it):
+    """Short stable name of an item record: the fields in which it differs from the base item, with their values."""
+    if not it or it.get("x", 0) == 0:
+        return "-"
+    d = [f for f in FIELDS if it.get(f) != BASE[f]]
+    if not d:
+        return "base"
+
+    def val(v):
+        return "/".join(v) if isinstance(v, list) else ("1" if v is True else "0" if v is False else str(v))
+    return "{" + ",".join(f"{f}:{val(it.get(f))}" for f in d) + "}"
+
+
 def _sig_step(st):
     a = st["a"]
     if a in ("Connect", "Disconnect"):
         return f"{a}({st['k']})"
     if a == "Push":
-        return "Push(" + st["from"] + ":" + "+".join(f"{i['j']}={i['v']}" for i in st["items"]) + ")"
+        return "Push(" + st["from"] + ":" + "+".join(f"{i['j']}={_item(i['it'])}" for i in st["items"]) + ")"
     if a in ("Result", "ResultForged"):
-        items = ",".join(f"{k}={v}" for k, v in sorted(st["items"].items()) if v)
+        items = ",".join(f"{k}={_item(v)}" for k, v in sorted(st["items"].items()) if v.get("x"))
         return f"{a}({st.get('from', '')}{':' if 'from' in st else ''}{st['n']}:{items})"
     if a == "ResultErr":
         return f"ResultErr({st['n']})"
@@ -25,13 +43,44 @@ def _sig_step(st):
     return a
 
 
+def _field_update_coverage(behs):
+    """How many replayed authorised pushes replace a stored item by one that differs in exactly field f (per f),
+    in several fields, or in none: computed by folding the behaviours the way the reference view is defined."""
+    cov = {f: 0 for f in FIELDS}
+    cov.update({"several": 0, "identical": 0})
+    for b in behs:
+        ref = {}
+        for st in b["steps"]:
+            a = st["a"]
+            if a == "Connect" and st["k"] != "resumed":
+                ref = {}
+            elif a == "Disconnect" and st["k"] == "user":
+                ref = {}
+            elif a == "Result":
+                ref = {j: it for j, it in st["items"].items() if it.get("x")}
+            elif a == "Push" and st["from"] in AUTHORISED:
+                for i in st["items"]:
+                    old, new = ref.get(i["j"]), i["it"]
+                    if old and new.get("x"):
+                        d = [f for f in FIELDS if old.get(f) != new.get(f)]
+                        cov[d[0] if len(d) == 1 else "several" if d else "identical"] += 1
+                    if new.get("x"):
+                        ref[i["j"]] = new
+                    else:
+                        ref.pop(i["j"], None)
+    return cov
+
+
 def run(chk, replay=None):
     quick = chk.tier == "quick"
     # 1. design level: exhaustive model check
     chk.mc(vf.tlc_mc("Roster.tla", "Roster.cfg", workers=TLC_WORKERS), "Roster.cfg")
+    # one contact, every item of ItemsFields (items that differ in exactly one field, for each field of QXmppRosterIq::Item)
+    chk.mc(vf.tlc_mc("Roster.tla", "RosterFields.cfg", workers=TLC_WORKERS, tag="RosterFields"), "RosterFields.cfg")
     if not quick:
         chk.mc(vf.tlc_mc("Roster.tla", "RosterBig.cfg", workers=TLC_WORKERS, tag="RosterBig"), "RosterBig.cfg")
     # 2. behaviours
+    seeded = set()
     if replay:
         behs = [b for b in vf.read_ndjson(replay) if "steps" in b]
     else:
@@ -39,7 +88,10 @@ def run(chk, replay=None):
         allp, st2 = vf.tlc_gen("RosterGen.tla", "RosterGenAll.cfg" if quick else "RosterGenAll5.cfg")
         sim, st3 = vf.tlc_simulate("RosterGen.tla", "RosterGenSim.cfg", num=200 if quick else 1500, depth=14 if quick else 24,
                                    seed=chk.seed, workers=TLC_WORKERS)
-        gen = {"tour_1_contact": st1, "all_paths": st2, "simulate": st3}
+        # every transition "stored item v, pushed / full-roster item w" over ItemsFields: in particular every update that
+        # differs from the stored item in exactly one field, for each field
+        tfields, st5 = vf.tlc_gen("RosterGen.tla", "RosterGenTourFields.cfg")
+        gen = {"tour_1_contact": st1, "tour_item_fields": st5, "all_paths": st2, "simulate": st3}
         if not quick:
             # the larger generators are sampled (seeded) to stay inside the thorough budget
             st2["replayed"] = min(len(allp), 10000)
@@ -52,9 +104,11 @@ def run(chk, replay=None):
             gen["tour_2_contacts_sampled"] = st4
         else:
             tour2 = []
-        behs = tour + allp + sim + tour2
+        behs = tfields + tour + allp + sim + tour2
         behs = vf.maximal_behaviours(behs)
+        seeded = {vf._canon(b) for b in sim}      # random walks: their histories depend on the seed
         chk.cov["generation"] = gen
+    chk.cov["authorised_updates_by_changed_field"] = _field_update_coverage(behs)
     vf.write_ndjson(chk.path("behaviours.ndjson"), behs)
     # 3. replay on the real client + roster manager
     trace = chk.path("trace.ndjson")
@@ -73,7 +127,10 @@ def run(chk, replay=None):
     chk.cov["replay_wall_s"] = r["wall_s"]
     chk.cov["trace_validation_wall_s"] = s["wall_s"]
     chk.cov["exhaustive"] = True
-    chk.cov["rule"] = ("behaviours = transition tour of the one-contact model (every transition of RosterGenTour.cfg) + all step "
+    chk.cov["rule"] = ("items are records over every field of QXmppRosterIq::Item (name, subscription, ask, approved, groups, MIX "
+                       "channel flag, MIX participant-id) and the view is compared field by field; "
+                       "behaviours = tour over all (stored item, new item) pairs of ItemsFields (every single-field update) + "
+                       "transition tour of the one-contact model (every transition of RosterGenTour.cfg) + all step "
                        "sequences up to the all-paths depth + seeded random walks over 3 contacts / 3 resources / 2-item pushes "
                        "(thorough: + seeded samples of the deeper all-paths set and of the tour of the two-contact model); each replayed on a real QXmppClient + "
                        "QXmppRosterManager connected to a scripted server over 127.0.0.1 (real SASL, bind, XEP-0198 "
@@ -91,8 +148,9 @@ def run(chk, replay=None):
         start[c] = pos
         pos += len(lines)
     seen = set()
-    # shortest histories first: they come from the all-paths / tour sets and do not depend on the seed
-    for v in sorted(s["viol"], key=lambda v: (v["line"] - start[v["case"]], v["line"])):
+    def rank(v):       # histories from the tours / all-paths sets first (seed-independent), shortest first
+        return (vf._canon(behs[int(v["case"][1:]) - 1]) in seeded, v["line"] - start[v["case"]], v["line"])
+    for v in sorted(s["viol"], key=rank):
         if v["case"] in seen:
             continue
         seen.add(v["case"])
